@@ -109,9 +109,19 @@ def grid(tier):
                            "route": "opensystem", "prior_call": None, "reinitialize": False, "other": other, "A": A}
 
 
+@st.composite
+def _elf(draw):
+    """electronic Lindblad form of a dimer, with or without vibrational modes on the molecules"""
+    return {"kind": "elf", "vib": draw(st.booleans()), "gap": draw(st.integers(50, 600)), "J": draw(st.integers(-200, 200)),
+            "w": [draw(st.integers(150, 500)), draw(st.integers(150, 500))],
+            "hr": [draw(st.integers(1, 12)) / 10.0, draw(st.integers(1, 12)) / 10.0],
+            "n1": draw(st.integers(2, 3)), "rates": [draw(st.integers(1, 30)), draw(st.integers(1, 30))],
+            "extra": draw(st.integers(-5, 5)) / 10.0}
+
+
 def strategy(tier):
     big = tier == "thorough"
-    return st.one_of(_system(big), _system(big), _system(big), _lind())
+    return st.one_of(_system(big), _system(big), _system(big), _lind(), _elf())
 
 
 def identities(ctx, R, tag, basis):
@@ -164,9 +174,64 @@ def read_all_bases(ctx, qr, RT, ham, other, A, tag, as_ops):
     return scale
 
 
+def _check_elf(case, ctx):
+    import quantarhei as qr
+    from quantarhei.qm import Operator, SystemBathInteraction
+    tag = "electronic-lindblad/" + ("vibronic" if case["vib"] else "electronic")
+    ctx.label(tag)
+    ctx.mark_nontrivial(case["vib"] and case["J"] != 0)
+
+    def build():
+        with qr.energy_units("1/cm"):
+            mols = [qr.Molecule([0.0, 10000.0]), qr.Molecule([0.0, 10000.0 + case["gap"]])]
+            if case["vib"]:
+                for k, m in enumerate(mols):
+                    md = qr.Mode(float(case["w"][k]))
+                    m.add_Mode(md)
+                    md.set_nmax(0, 2)
+                    md.set_nmax(1, case["n1"])
+                    md.set_HR(1, case["hr"][k])
+            agg = qr.Aggregate(molecules=mols)
+            if case["J"]:
+                agg.set_resonance_coupling(0, 1, float(case["J"]))
+        agg.build()
+        K12 = Operator(dim=3, real=True)
+        K12.data[1, 2] = 1.0
+        K12.data[2, 2] = case["extra"]
+        K21 = Operator(dim=3, real=True)
+        K21.data[2, 1] = 1.0
+        agg.set_SystemBathInteraction(SystemBathInteraction(sys_operators=[K12, K21],
+                                                            rates=(case["rates"][0] / 1000.0, case["rates"][1] / 1000.0)))
+        return agg
+
+    def tensor(secular):
+        RT, ham = build().get_RelaxationTensor(qr.TimeAxis(0.0, 10, 1.0), relaxation_theory="electronic_Lindblad",
+                                               secular_relaxation=secular)
+        if RT.as_operators:
+            RT.convert_2_tensor()
+        return numpy.array(RT.data)
+    ok1, full = guarded(ctx, "construct", lambda: tensor(False), tag)
+    ok2, sec = guarded(ctx, "construct", lambda: tensor(True), tag + "/secular")
+    if not (ok1 and ok2):
+        return
+    for nm, R in (("full", full), ("secular", sec)):
+        identities(ctx, R, tag + "/" + nm, "outside")
+    d = full.shape[0]
+    keep = numpy.zeros((d, d, d, d), dtype=bool)
+    for a in range(d):
+        for b in range(d):
+            keep[a, a, b, b] = True
+            keep[a, b, a, b] = True
+    sc = max(1e-300, float(numpy.max(numpy.abs(full))))
+    ctx.bound("secular/other-elements-zero", float(numpy.max(numpy.abs(sec[~keep]))), 1e-10 * sc, where=tag)
+    ctx.bound("secular/kept-elements-unchanged", float(numpy.max(numpy.abs((sec - full)[keep]))), 1e-10 * sc, where=tag)
+
+
 def check_case(case, ctx):
     if case["kind"] == "lindblad":
         return _check_lind(case, ctx)
+    if case["kind"] == "elf":
+        return _check_elf(case, ctx)
     return _check_system(case, ctx)
 
 
@@ -266,8 +331,7 @@ def _check_system(case, ctx):
             guarded(ctx, "read", lambda: read_all_bases(ctx, qr, RT, ham, case["other"], A, tag + "/converted", False), tag)
 
     # ---- secularisation: differential against an unsecularised twin ----------------------------
-    if case["secular"] and (case["theory"] == "stR" or (case["theory"] == "cRF" and not case["td"]
-                                                          and not case.get("coupling_cutoff"))):
+    if case["secular"] and (case["theory"] == "stR" or (case["theory"] == "cRF" and not case.get("coupling_cutoff"))):
         # (combined tensor: only without a coupling cut-off, where the theory's basis is the eigenbasis of the returned
         # Hamiltonian)
         ok, r2 = guarded(ctx, "construct", lambda: _build(qr, case, False, as_ops=False), tag + "/twin")
